@@ -5,7 +5,7 @@ CONSTANTS
   ObfsMin = 3
   ObfsMax = 6
   MaxRead = 3
-  MarkMode = "release"
+  MarkMode = "leak-on-missing"
   MaxW = 2
   Cases <- MCCases
 VIEW view
